@@ -191,7 +191,9 @@ def _packet_reader(ctx, R, roles, T):
             R.fail("PKT", sub, "packet reader returns %s, not (command, arg0, arg1, payload)" % show(rt), f.loc(rn.ast))
             continue
         cmd, a0, a1, payload = rt[1:]
-        cmd_ok = cmd[0] == "call" and cmd[1] == ".get" and len(cmd[2]) == 2 and cmd[2][0] == ("c", wti) and is_unpack_proj(cmd[2][1], 0)
+        cmd_ok = cmd[0] == "call" and cmd[1] == ".get" and (len(cmd[2]) == 2 or (len(cmd[2]) == 3 and cmd[2][2] == ("c", None))) and cmd[2][0] == ("c", wti) and is_unpack_proj(cmd[2][1], 0)
+        if not cmd_ok and cmd[0] == "sub" and cmd[1] == ("c", wti) and is_unpack_proj(cmd[2], 0):
+            cmd_ok = True          # WIRE_TO_ID[word]: an unknown word raises KeyError instead of being delivered (the membership guard is checked below)
         R.check(cmd_ok, "PKT", sub + "|cmd", "command = WIRE_TO_ID lookup of header field 0", "returned command is %s, not the table lookup of the header's command word" % show(cmd), f.loc(rn.ast))
         R.check(is_unpack_proj(a0, 1) and is_unpack_proj(a1, 2), "PKT", sub + "|args", "arg0/arg1 = header fields 1/2 in order",
                 "returned (arg0, arg1) are (%s, %s), not header fields 1 and 2" % (show(a0), show(a1)), f.loc(rn.ast))
